@@ -363,7 +363,7 @@ def replay(rep: dict) -> int:
     hit = None
     for f in sr.findings:
         sig = c17_run.classify(f, d, schema["module"], schema["src"])
-        if f["kind"] == rep.get("finding_kind") and (rep.get("finding_name") in (None, f.get("name")) or sig == want):
+        if f["kind"] == rep.get("finding_kind") and (all(sig.get(k) == v for k, v in want.items()) if want else rep.get("finding_name") in (None, f.get("name"))):
             hit = f
             break
     if hit is None:
